@@ -18,6 +18,7 @@ OUTSIDE = ["IEEE rounding", "more events than the shape bound", "event/query pos
 
 def _setup():
     from vlib import symx
+    symx.FLOAT_FAITHFUL = False      # worker processes are reused: only the *_floats obligations switch it on (after this call)
     mods = symx.load_shimmed(MODS)
     return symx, mods
 
@@ -197,11 +198,11 @@ def obligations(tier):
         for s, g in (((1, 0, 0, 0), 8), ((2, 0, 0, 0), 6), ((1, 0, 0, 1), 5)):
             obs.append(dict(name=f"bpm_at_floats{s}/G{g}", func="ob_bpm_at_floats", args=(s, g), budget_s=b,
                             bounds=f"shape {s}, ticks 0..{g}, IEEE-faithful floats: positions pinned wherever the code converts a beat to a double; BPM values 120/7/90 concrete"))
-        for s, g, nr in [((0, 1, 0, 0), 6, False), ((0, 0, 1, 0), 6, False), ((0, 1, 0, 1), 4, True), ((0, 1, 1, 0), 4, True)]:
+        for s, g, nr in [((0, 1, 0, 0), 6, False), ((0, 0, 1, 0), 6, False), ((0, 1, 0, 1), 4, True), ((0, 1, 1, 0), 3, True)]:
             obs.append(dict(name=f"history{s}/G{g}" + ("/narrow-tags" if nr else ""), func="ob_history", args=(s, g, nr), budget_s=b,
                             bounds=f"shape {s}, ticks 0..{g}: one arbitrary earlier query (time_at any beat/tag, bpm_at, hittable) on the same engine, then time_at(q, tag) against the oracle"))
         # three warps (nested / overlapping / touching in every arrangement) need a third of a kind
-        for s, g in (((0, 0, 0, 3), 8), ((0, 1, 0, 3), 4)):
+        for s, g in (((0, 0, 0, 3), 8), ((0, 1, 0, 3), 3)):
             obs.append(dict(name=f"time_at{s}/G{g}/alltags", func="ob_time_at", args=(s, g, None), budget_s=b, bounds=f"shape {s}: three warps, ticks 0..{g}"))
         obs.append(dict(name="monotone(0, 0, 0, 3)/G6", func="ob_monotone", args=((0, 0, 0, 3), 6), budget_s=b, bounds="three warps, two symbolic queries"))
     else:
